@@ -198,6 +198,154 @@ def basic_era_start_mechanism(w, scope, p, prop):
     return w
 
 
+_MON = {m: i + 1 for i, m in enumerate(['Jan', 'Feb', 'Mar', 'Apr', 'May', 'Jun', 'Jul', 'Aug', 'Sep', 'Oct', 'Nov', 'Dec'])}
+_DOW = {d: i for i, d in enumerate(['Mon', 'Tue', 'Wed', 'Thu', 'Fri', 'Sat', 'Sun'])}
+
+
+def _resolve_on(year, month, on):
+    """(month, day) of a TZ ON field by the calendar (own implementation, datetime only); None if not understood."""
+    import calendar
+    import datetime as dt
+    try:
+        if on.isdigit():
+            return month, int(on)
+        if on.startswith('last'):
+            d = dt.date(year, month, calendar.monthrange(year, month)[1])
+            while d.weekday() != _DOW[on[4:7]]:
+                d -= dt.timedelta(days=1)
+            return d.month, d.day
+        wd, n = _DOW[on[:3]], int(on[5:])
+        d = dt.date(year, month, n)
+        step = 1 if on[3:5] == '>=' else -1
+        while d.weekday() != wd:
+            d += dt.timedelta(days=step)
+        return d.month, d.day
+    except Exception:  # noqa
+        return None
+
+
+def _time_and_suffix(t):
+    suf = t[-1] if t and t[-1] in 'wsugz' else 'w'
+    body = t[:-1] if t and t[-1] in 'wsugz' else t
+    return _hms(body), ('u' if suf in 'ugz' else suf)
+
+
+def era_start_on_rule_transition_mechanism(w, p, prop):
+    """Known mechanism (see known_findings.json): when an era ends at a UNTIL time given in standard or universal
+    time ('s', 'u') and the next era has named rules, ExtendedZoneProcessor / ZoneSpecifier compare and convert that
+    start time through the candidate transitions of the NEW era (fixTransitionTimes() over the candidates starts from
+    the first candidate, not from the previous era's last transition).  That is invisible unless a rule transition of
+    the new era's policy lies within a day of the era start and the two eras' offsets differ there: then the era
+    change (or that rule transition) moves or disappears -- e.g. 'Asia/Famagusta 3:00 1:00 +03 2017 Oct 29 1:00u'
+    followed by EUAsia ('Oct lastSun 1:00u'), or 'America/Metlakatla -8:00 - PST 2015 Nov 1 1:01s' followed by
+    '-9:00 US'.  Only mismatches within a day of such a boundary are attributed to it."""
+    import datetime as dt
+    if w.get("epochSeconds") is None or not w["key"].endswith(("offset-differs", "dst-flag-differs", "abbrev-differs")):
+        return w
+    eras = p["zones"].get(w.get("zone"), [])
+    t = dt.datetime(2000, 1, 1) + dt.timedelta(seconds=int(w["epochSeconds"]))
+    for i, e in enumerate(eras[:-1]):
+        if len(e) < 7:
+            continue
+        ut, usuf = _time_and_suffix(e[6])
+        if usuf == 'w' or ut is None:
+            continue
+        nxt = eras[i + 1]
+        rules = p["rules"].get(nxt[1])
+        if not rules:
+            continue
+        y, mo = int(e[3]), _MON.get(e[4][:3])
+        md = _resolve_on(y, mo, e[5]) if mo else None
+        if md is None:
+            continue
+        try:
+            boundary = dt.datetime(y, md[0], md[1]) + dt.timedelta(seconds=ut)      # in 's' or 'u' time: within 16 h of UTC
+        except ValueError:
+            continue
+        if abs((t - boundary).total_seconds()) > (16 + 24) * 3600:
+            continue
+        for r in rules:
+            lo = int(r[0])
+            hi = lo if r[1] == 'only' else (9999 if r[1] == 'max' else int(r[1]))
+            rmo = _MON.get(r[3][:3])
+            for yy in (y - 1, y, y + 1):
+                if not (lo <= yy <= hi) or rmo is None:
+                    continue
+                rd = _resolve_on(yy, rmo, r[4])
+                rt, _ = _time_and_suffix(r[5])
+                if rd is None or rt is None:
+                    continue
+                try:
+                    when = dt.datetime(yy, rd[0], rd[1]) + dt.timedelta(seconds=rt)
+                except ValueError:
+                    continue
+                if abs((when - boundary).total_seconds()) <= 86400:
+                    w = dict(w)
+                    w["key"] = prop + ":era-start-in-s-or-u-time-within-a-day-of-a-rule-transition-of-the-new-era"
+                    w["what"] = ("an era start given in 's'/'u' time is compared and converted through the new era's candidate "
+                                 "transitions; with a rule transition of the new era within a day the change moves or a transition is lost")
+                    w["boundary"] = "%s%s" % (boundary.isoformat(), usuf)
+                    w["rule"] = " ".join(r)
+                    return w
+    return w
+
+
+def zic_postprocessing_mechanism(w, p, prop, zone_info, zsegs):
+    """Two places where zic's output is not the literal reading of the source (see known_findings.json):
+    (A) zic -- for the benefit of old readers -- drops a transition whose local time is overtaken by the next one
+        (writezone: at[i] + utoff[before] <= at[i-1] + utoff[before that]) and lets the earlier transition go straight to
+        the later type; AceTime keeps both.  Attributed only when AceTime's own transitions T1 < T2 satisfy exactly that
+        inequality around the instant and zic's value equals AceTime's value after T2.
+    (B) before a zone's first transition zic uses a 'default type'; when the first era's rules give no standard time
+        before their first transition zic takes the first standard type of a LATER era.  Attributed only when zic's
+        offset there is impossible for the first era (STDOFF + any SAVE of its policy)."""
+    if w.get("epochSeconds") is None or not w["key"].endswith(("offset-differs", "dst-flag-differs", "abbrev-differs")):
+        return w
+    t = int(w["epochSeconds"])
+    unix = t + 946684800
+    starts = [(-1 << 62) if s[0] is None else s[0] for s in zsegs]
+    import bisect
+    zi = max(bisect.bisect_right(starts, unix) - 1, 0)
+    zval = tuple(zsegs[zi][1:4])
+    # (B)
+    if zi == 0 and zsegs[0][0] is None:
+        era0 = p["zones"].get(w.get("zone"), [[]])[0]
+        std = _hms(era0[0]) if era0 else None
+        saves = {0}
+        if era0 and era0[1] in p["rules"]:
+            saves |= {_hms(r[6]) or 0 for r in p["rules"][era0[1]]}
+        elif era0 and era0[1] != '-' and _hms(era0[1]) is not None:
+            saves = {_hms(era0[1])}
+        if std is not None and zval[0] not in {std + sv for sv in saves}:
+            w = dict(w)
+            w["key"] = prop + ":zic-default-type-before-first-transition-taken-from-later-era"
+            w["what"] = "before the zone's first transition zic reports an offset the first era cannot have (its default-type heuristic)"
+            return w
+    # (A)
+    try:
+        import sys
+        sys.path.insert(0, str(vlib.REPO / "tools"))
+        from zonedb.zone_specifier import ZoneSpecifier
+        zs = ZoneSpecifier(zone_info)
+        zs.get_timezone_info_for_seconds(t)
+        trs = sorted(zs.transitions, key=lambda x: x.startEpochSecond)
+        for i in range(1, len(trs) - 1):
+            T1, T2 = trs[i].startEpochSecond, trs[i + 1].startEpochSecond
+            if not (T1 <= t < T2):
+                continue
+            tot = lambda x: x.offsetSeconds + x.deltaSeconds   # noqa: E731
+            after = (tot(trs[i + 1]), 1 if trs[i + 1].deltaSeconds else 0, trs[i + 1].abbrev)
+            if T2 + tot(trs[i]) <= T1 + tot(trs[i - 1]) and (zval[0], 1 if zval[1] else 0, zval[2]) == after and starts[zi] == T1 + 946684800:
+                w = dict(w)
+                w["key"] = prop + ":zic-merges-transition-overtaken-in-local-time"
+                w["what"] = ("zic dropped a transition whose local time is overtaken by the next one (%d s later) and goes straight "
+                             "to the later type; AceTime keeps both" % (T2 - T1))
+                return w
+    except Exception:  # noqa   classification is best effort: an unclassified mismatch stays a plain violation
+        pass
+    return w
+
+
 def check_program(v, prog_id, p, workdir, scopes=("extended", "basic"), targets=("python", "arduino"), start_year=2000,
                   until_year=2050, grid=5, nbhd=120, py_grid_s=6 * 3600 + 1800, stats=None, selfcheck_zones=6, expect_percent_z=(), san=False, prop="c03"):
     """Returns a dict of statistics; violations go to `v`."""
@@ -231,6 +379,9 @@ def check_program(v, prog_id, p, workdir, scopes=("extended", "basic"), targets=
 
         def classify(w):
             w = basic_era_start_mechanism(w, scope, p, prop)
+            w = era_start_on_rule_transition_mechanism(w, p, prop)
+            if w.get("zone") in c.zone_infos and w.get("zone") in segs:
+                w = zic_postprocessing_mechanism(w, p, prop, c.zone_infos[w["zone"]], segs[w["zone"]])
             if w.get("zone") in pz and "abbrev" in w["key"]:
                 w = dict(w)
                 w["key"] = prop + ":format-%z-unsupported"
